@@ -33,12 +33,15 @@ class BVUnit:
         self.unwindset = list(unwindset)
         self.note = note
         self.ghost = ghost or {}
+        self.tu_variant = None
+        self.harness_pre = ""
+        self.stubs = {}
 
     def name(self):
         return re.sub(r"[^A-Za-z0-9]+", "_", self.label).strip("_")
 
 
-def witness_wrapper(em, f, contract):
+def witness_wrapper(em, f, contract, harness_pre=""):
     """Contract goes on a wrapper that first records the inputs in witness globals (so that a
     counterexample trace names them) and then calls the real function."""
     sig = em.signature(f)
@@ -53,6 +56,9 @@ def witness_wrapper(em, f, contract):
         if "*" in p and "jpv_" not in p.split("*")[0]:
             base = p.split("*")[0].replace("const", "").strip()
             if base in ("void", "uint8_t", "unsigned char", "char"):
+                # byte buffers: the first byte (flag byte of the wire formats) is recorded
+                decls.append("uint64_t jpv_w_%s_byte0;" % nm)
+                caps.append("  jpv_w_%s_byte0 = (uint64_t)*(const uint8_t *)%s;" % (nm, nm))
                 continue
             try:
                 sz = em.sizeof(em._rec_by_cname[base].qname) if base in getattr(em, "_rec_by_cname", {}) else None
@@ -73,7 +79,7 @@ def witness_wrapper(em, f, contract):
     body = "\n".join(caps) + "\n  " + ("return " if ret != "void" else "") + call + ";"
     wname = f.cname + "__chk"
     text = "%s %s(%s)\n%s{\n  %s\n%s\n}\n" % (ret, wname, params, contract.strip() + "\n", "\n  ".join(decls), body)
-    harness = "void jpv_harness(void)\n{\n" + "".join("  %s;\n" % p for p in plist) + "  %s(%s);\n}\n" % (wname, ", ".join(names))
+    harness = "void jpv_harness(void)\n{\n" + "".join("  %s;\n" % p for p in plist) + harness_pre + "  %s(%s);\n}\n" % (wname, ", ".join(names))
     return wname, text + harness
 
 
@@ -95,18 +101,21 @@ def _build_bv(tu, unit, workdir, contract_override=None):
         # leaf proved under MORE alias patterns than its signature permits (restrict dropped)
         tgt_contract = "".join(l + "\n" for l in tgt_contract.splitlines() if "/* restrict */" not in l)
     f = tu.func(unit.target)
+    if getattr(unit, "stub_factory", None) is not None:
+        unit.stubs = {q: b for q, b in unit.stub_factory(tu).items() if q in tu.by_qname and tu.by_qname[q].body is not None}
     # replaced callees: prototype + contract; inlined: bodies
     bodies = [unit.target] + [b for b in unit.bodies if b != unit.target]
     callee_contracts = {q: contracts[q] for q in unit.replace}
     src, em = cxx2c.build_unit(tu, workdir, bodies, contracts=callee_contracts, loop_contracts=unit.loop_contracts,
-                               spec_prelude=bvspec.prelude() + unit.spec_prelude, ghost=unit.ghost)
-    wname, wtext = witness_wrapper(em, f, tgt_contract)
+                               spec_prelude=bvspec.prelude() + unit.spec_prelude, ghost=unit.ghost, stubs=getattr(unit, "stubs", None))
+    wname, wtext = witness_wrapper(em, f, tgt_contract, getattr(unit, "harness_pre", ""))
     src += "\n/* ---- contract carrier + harness (generated) ---- */\n" + wtext
     # every function that is called but neither inlined nor replaced is an extraction error
     have = {tu.func(q).cname for q in bodies}
     repl = {tu.func(q).cname: q for q in unit.replace}
+    stubbed = {tu.func(q).cname for q in getattr(unit, "stubs", {}) or {}}
     for cname, cf_ in em.need_funcs.items():
-        if cname not in have and cname not in repl:
+        if cname not in have and cname not in repl and cname not in stubbed:
             raise ExtractionError("%s calls %s which is neither inlined nor under a contract in unit %s" % (unit.target, cf_.qname, unit.label))
     cfile = os.path.join(workdir, unit.name() + ".c")
     with open(cfile, "w") as fh:
@@ -132,6 +141,7 @@ def _is_called(src, cname):
 def run_bv(tu, unit, workdir):
     t0 = time.time()
     try:
+        tu = get_tu(tu, getattr(unit, "tu_variant", None), workdir)
         cfile, wname, repl, em = build_bv(tu, unit, workdir)
     except ExtractionError as e:
         return dict(unit=unit, status="undecided", reason="extraction: %s" % e, obligations=0, discharged=0, failed=[], wall_s=time.time() - t0, log=str(e))
@@ -167,6 +177,19 @@ def run_bv(tu, unit, workdir):
 
 
 SHARED = {}
+_TU_LOCK = threading.Lock()
+
+
+def get_tu(tu, variant, workdir):
+    """AST of a variant translation unit (C-interface wrapper files), built once per check run"""
+    if not variant:
+        return tu
+    with _TU_LOCK:
+        key = "tu:" + variant
+        if key not in SHARED:
+            import jast
+            SHARED[key] = jast.TU(jast.dump_ast(workdir, name="u_" + variant, source=jast.unity_source(variant=variant)))
+        return SHARED[key]
 
 
 def get_consts(tu, workdir):
